@@ -59,6 +59,11 @@ def run(tier):
     slow_h = "streaming/calm,streaming/moderate,streaming/chaos,compaction/calm,compaction/aggressive,compaction/chaos"
     slow_seeds = ",".join(str(s) for s in seeds[:6 if thorough else 2])
     vlib.vh(["repro", "run", "--harness", slow_h, "--seeds", slow_seeds, "--ops", ops, "--tag", "S", "--slow", 130, "--out", pc])
+    # fifth process: every tracing callsite enabled (a failing seed re-run with verbose logging); sixth: a neighbour thread of the
+    # same process keeps building and running other simulations with other fault configurations meanwhile
+    pd, pe = os.path.join(wd, "d.ndjson"), os.path.join(wd, "e.ndjson")
+    vlib.vh(["repro", "run", "--seeds", ",".join(str(x) for x in seeds[:4 if thorough else 2]), "--ops", ops, "--tag", "D", "--debuglog", "1", "--out", pd])
+    vlib.vh(["repro", "run", "--seeds", ",".join(str(x) for x in seeds[:4 if thorough else 2]), "--ops", ops, "--tag", "E", "--neighbour", "1", "--out", pe])
     try:
         longp.wait(timeout=600)
     except subprocess.TimeoutExpired:
@@ -67,13 +72,16 @@ def run(tier):
     runs = load(pa)
     runs.update(load(pb))
     runs.update(load(pc))
+    runs.update(load(pd))
+    runs.update(load(pe))
     if os.path.exists(pl):
         runs.update(load(pl))
     keys = sorted({(h, s) for (h, s, _) in runs})
     recs, raw = [], {}
     steps = 0
     for (h, s) in keys:
-        for rel, ta, tb in (("same_process", "A1", "A2"), ("other_process", "A1", "B"), ("other_process_slow", "A1", "S"), ("other_process_long_pause", "A1", "L")):
+        for rel, ta, tb in (("same_process", "A1", "A2"), ("other_process", "A1", "B"), ("other_process_slow", "A1", "S"), ("other_process_long_pause", "A1", "L"),
+                            ("other_process_verbose_logging", "A1", "D"), ("other_process_busy_neighbour_thread", "A1", "E")):
             if (h, s, tb) not in runs:
                 continue
             a, b = runs.get((h, s, ta), []), runs.get((h, s, tb), [])
